@@ -335,7 +335,7 @@ func (g *Graph) failEdgeOn(e *Edge, obj types.Object) bool {
 }
 
 var errCtorNames = []string{"errors.New", "fmt.Errorf", "*errors.Wrap*", "*errors.WithStack", "*errors.Errorf",
-	"*.New*Error*", "*.*Errorf", "kit/platform/errors.*"}
+	"*.New*Error*", "*.*Errorf", "kit/platform/errors.*", "*.Err*"}
 
 // SuccessExits returns the exits on which the function may report success:
 // fall-off-the-end exits, and returns whose error operand is not provably a
